@@ -367,8 +367,47 @@ func (E *Engine) dynamicType(v Val) types.Type {
 	return E.typeOfTag[int(v.L[0].C.Int64())]
 }
 
+// typeByName resolves a type written in a contract: basic types, []T, *T,
+// interface{}, and (qualified) named types of the loaded packages.
+func (E *Engine) typeByName(pkgPath, name string) types.Type {
+	name = strings.TrimSpace(name)
+	switch {
+	case name == "interface{}":
+		return types.NewInterfaceType(nil, nil)
+	case strings.HasPrefix(name, "[]"):
+		if el := E.typeByName(pkgPath, name[2:]); el != nil {
+			return types.NewSlice(el)
+		}
+		return nil
+	case strings.HasPrefix(name, "*"):
+		if el := E.typeByName(pkgPath, name[1:]); el != nil {
+			return types.NewPointer(el)
+		}
+		return nil
+	}
+	if o := types.Universe.Lookup(name); o != nil {
+		if tn, ok := o.(*types.TypeName); ok {
+			return tn.Type()
+		}
+	}
+	pp, n := pkgPath, name
+	if i := strings.LastIndex(n, "."); i > 0 {
+		pp = E.importPath(pkgPath, n[:i])
+		n = n[i+1:]
+	}
+	if p := E.L.Pkgs[pp]; p != nil {
+		if o := p.Pkg.Scope().Lookup(n); o != nil {
+			return o.Type()
+		}
+	}
+	return nil
+}
+
 func (E *Engine) typeTagByName(pkgPath, name string) *Term {
 	name = strings.TrimSpace(name)
+	if t := E.typeByName(pkgPath, name); t != nil {
+		return E.typeTag(t)
+	}
 	ptr := strings.HasPrefix(name, "*")
 	n := strings.TrimPrefix(name, "*")
 	pp := pkgPath
@@ -811,6 +850,18 @@ func (E *Engine) VerifyFunction(fn *ssa.Function, fc *FuncContract) {
 			for _, e := range fc.Ensures {
 				E.addPost(x, st2, penv, e)
 			}
+			if len(fc.Exits) > 0 {
+				xenv := *penv
+				xenv.fr = fr
+				for _, e := range fc.Exits {
+					ee := e
+					ee.Label = "exit." + e.Label
+					if !x.exitInScope(&xenv, fn, e) {
+						continue // a local named by the clause is not yet declared at this return
+					}
+					E.addPost(x, st2, &xenv, ee)
+				}
+			}
 			if ifc != nil && len(fn.Params) > 0 {
 				penv.vars[E.recvNameFor(ifc)] = fr.params[fn.Params[0].Name()]
 				if pn, ok := ifc.Flags["params"]; ok {
@@ -878,6 +929,33 @@ func (E *Engine) VerifyFunction(fn *ssa.Function, fc *FuncContract) {
 	x.topFrame = &ofr
 	x.run(ost, &ofr, fn.Blocks[0], 0, nil)
 	x.caseName = ""
+}
+
+// exitInScope: an exit clause applies to a return statement only when every local
+// variable it names has been declared on the path to it.
+func (x *Exec) exitInScope(env *Env, fn *ssa.Function, c Clause) (ok bool) {
+	ok = true
+	defer func() {
+		if r := recover(); r != nil {
+			ee, is := r.(evalError)
+			if !is {
+				panic(r)
+			}
+			const pre = "unknown identifier \""
+			if strings.HasPrefix(ee.msg, pre) {
+				name := strings.TrimSuffix(strings.TrimPrefix(ee.msg, pre), "\"")
+				for _, l := range fn.Locals {
+					if l.Comment == name {
+						ok = false
+						return
+					}
+				}
+			}
+			ok = true // reported by addPost
+		}
+	}()
+	x.evalBool(env, c.E)
+	return
 }
 
 func (E *Engine) addPost(x *Exec, st *State, env *Env, c Clause) {
